@@ -111,7 +111,7 @@ func checkSquashBase(p *core.Prog, r *core.Report, rule string) {
 	// getStore: cache hit only at the requested block
 	prm := gs.Params[len(gs.Params)-1]
 	var hitEdges []core.Edge
-	core.Instrs(gs, func(in ssa.Instruction) {
+	core.InstrsDeep(gs, func(in ssa.Instruction) {
 		ifi, ok := in.(*ssa.If)
 		if !ok {
 			return
@@ -209,7 +209,7 @@ func checkSubrequestStores(p *core.Prog, r *core.Report, rule string) {
 	// the load is skipped only for a store that starts at or after the job's first block
 	okSkip := false
 	if len(loads) == 1 {
-		core.Instrs(fn, func(in ssa.Instruction) {
+		core.InstrsDeep(fn, func(in ssa.Instruction) {
 			ifi, ok := in.(*ssa.If)
 			if !ok {
 				return
